@@ -265,6 +265,7 @@ func (r *Run) probe(c *Call) []*Violation {
 	} else if op.Bytes {
 		o.B = []byte{}
 	}
+	o.Backing = o.B
 	out := op.run(o)
 	if op.Ctor && out.Ret != nil {
 		// mirror what the harness did at record time: copy into the receiver
